@@ -1,6 +1,6 @@
 \* as-built switches (pinned tree): PROG log with the expected (declarative) and the as-built status
 \* thorough family B: up to 3 models (all sequences over 8 class names) x one other change
-CONSTANTS MaxDev = 2  SampleDev = 9  MaxPaths = 1  MaxModels = 3  MaxOpts = 1
+CONSTANTS MaxDev = 2  SampleDev = 9  MaxPaths = 1  MaxModels = 3  MaxModelsRich = 2  MaxOpts = 1
           CliCountsTranslateFailures = FALSE  CliCatchesTranslateErrors = FALSE  CliCountsMissingModelFile = FALSE
           Emit = TRUE  NParts <- NPartsEnv  Part <- PartEnv
 INIT Init
